@@ -45,7 +45,7 @@ inductive Res (α : Type) where
   | err (e : Err)
   | panic (site : String)
   | fuel                      -- the model's loop fuel ran out (never the case, see `slice_terminates`)
-  deriving Repr
+  deriving Repr, DecidableEq
 
 namespace Res
 def bind {α β : Type} (r : Res α) (f : α → Res β) : Res β :=
@@ -171,17 +171,23 @@ def slice (v : Value) (start stop step : Option Int) : Res Value :=
 
 /-! ### VM arms -/
 
+/-- `Value::is_undefined`. -/
+def isUndef : Value → Bool
+  | .undef => true
+  | _ => false
+
+/-- `val.is_undefined() || val.is_none()`. -/
+def isUndefOrNone : Value → Bool
+  | .undef => true
+  | .none => true
+  | _ => false
+
 /-- `BinarySubscript` (optional = false) and `BinarySubscriptOpt` (optional = true). -/
 def vmSubscript (optional : Bool) (val subscript : Value) : Res Value :=
-  let isUndefOrNone := match val with | .undef => true | .none => true | _ => false
-  if optional && isUndefOrNone then .ok .undef
-  else
-    match val with
-    | .undef => .err .recvUndefined
-    | _ =>
-      match subscript with
-      | .undef => .err .indexUndefined
-      | _ => getItem val subscript
+  if optional && isUndefOrNone val then .ok .undef
+  else if isUndef val then .err .recvUndefined
+  else if isUndef subscript then .err .indexUndefined
+  else getItem val subscript
 
 /-- One slice operand as the VM reads it off the stack: none ⇒ absent, undefined ⇒ error,
 anything for which `as_i128` is `None` ⇒ error. -/
@@ -196,16 +202,13 @@ def sliceOperand (p : Pos) (v : Value) : Res (Option Int) :=
 
 /-- `Slice` (optional = false) and `SliceOpt` (optional = true). -/
 def vmSlice (optional : Bool) (val start stop step : Value) : Res Value :=
-  let isUndefOrNone := match val with | .undef => true | .none => true | _ => false
-  if optional && isUndefOrNone then .ok .undef
+  if optional && isUndefOrNone val then .ok .undef
+  else if isUndef val then .err .recvUndefined
   else
-    match val with
-    | .undef => .err .recvUndefined
-    | _ =>
-      (sliceOperand .start start).bind fun s =>
-      (sliceOperand .stop stop).bind fun e =>
-      (sliceOperand .step step).bind fun st =>
-      slice val s e st
+    (sliceOperand .start start).bind fun s =>
+    (sliceOperand .stop stop).bind fun e =>
+    (sliceOperand .step step).bind fun st =>
+    slice val s e st
 
 /-! ### len, reverse, length / reverse filters (char level) -/
 
@@ -224,10 +227,11 @@ def lengthFilter (v : Value) : Res Nat :=
   | none => .err .noLength
 
 /-- `Value::reverse` (also `filters::reverse`).  The string result is built with
-`Value::from(String)`, i.e. it is a normal string whatever the input kind was. -/
+`Value::from(String)`, i.e. it is a normal string whatever the input kind was; the bytes result
+is built with `Value::from(Vec<u8>)`, which is the generic `From<Vec<T>>`: an array of u64. -/
 def reverse : Value → Res Value
   | .arr xs => .ok (.arr xs.reverse)
-  | .bytes bs => .ok (.bytes bs.reverse)
+  | .bytes bs => .ok (.arr (bs.reverse.map Value.u64))
   | .str _ s => .ok (.str false s.reverse)
   | _ => .err .notReversible
 
